@@ -7,7 +7,7 @@ PROP = {
     "n_thorough": 30000,
     "harness_timeout": 3000,
     "trusted": [
-        "harness/cmd/c01/s2t: logical-tree generator, construction through the public secs2 constructors (argument shapes drawn from the PRNG), canonical rendering of items through public accessors, independent reference encoder used by the implementation-level oracle",
+        "harness/cmd/c01/s2t: logical-tree generator, construction through the public secs2 constructors (argument shapes drawn from the PRNG), canonical rendering of items through public accessors, independent reference encoder used by the implementation-level oracle; AppendTo is run over destinations whose spare capacity is pre-filled with non-zero bytes (prefix lengths 0/1/7, exact and generous capacity) and over a buffer recycled across cases (buf = item.AppendTo(buf[:0]))",
         "ocaml/c01_driver.ml: case-line parser, expansion of '#seed,count' leaves (same LCG as the harness), MD5 digests for long fields",
     ],
     "assumptions": [
